@@ -234,6 +234,16 @@ _set_setstate(Bucket *self, PyObject *args)
     if ((l=PyTuple_Size(items)) < 0)
         return -1;
 
+    /* Get the memory first: if that fails the set still holds its old
+     * contents. */
+    if (l > self->size)
+    {
+        UNLESS (keys=BTree_Realloc(self->keys, sizeof(KEY_TYPE)*l))
+            return -1;
+        self->keys=keys;
+        self->size=l;
+    }
+
     for (i=self->len; --i >= 0; )
     {
         DECREF_KEY(self->keys[i]);
@@ -244,14 +254,6 @@ _set_setstate(Bucket *self, PyObject *args)
     {
         Py_DECREF(self->next);
         self->next=0;
-    }
-
-    if (l > self->size)
-    {
-        UNLESS (keys=BTree_Realloc(self->keys, sizeof(KEY_TYPE)*l))
-            return -1;
-        self->keys=keys;
-        self->size=l;
     }
 
     for (i=0; i<l; i++)
